@@ -175,6 +175,163 @@ fn gen_tab(r: &mut Rng, out: &mut Out, len: usize) {
     });
 }
 
+/// Parse an unsecured datagram: (counter, exchange flags, opcode, ack counter, first payload byte).
+fn parse_wire(b: &[u8]) -> Option<(u32, u8, u8, Option<u32>, Option<u8>)> {
+    if b.len() < 8 {
+        return None;
+    }
+    let flags = b[0];
+    let ctr = u32::from_le_bytes([b[4], b[5], b[6], b[7]]);
+    let mut o = 8;
+    if flags & 0x04 != 0 {
+        o += 8;
+    }
+    match flags & 0x03 {
+        1 => o += 8,
+        2 => o += 2,
+        _ => {}
+    }
+    if b.len() < o + 6 {
+        return None;
+    }
+    let xf = b[o];
+    let opc = b[o + 1];
+    let mut p = o + 6;
+    if xf & 0x10 != 0 {
+        p += 2;
+    }
+    let ack = if xf & 0x02 != 0 && b.len() >= p + 4 {
+        let a = u32::from_le_bytes([b[p], b[p + 1], b[p + 2], b[p + 3]]);
+        p += 4;
+        Some(a)
+    } else {
+        None
+    };
+    Some((ctr, xf, opc, ack, b.get(p).copied()))
+}
+
+/// `sys` cases: two real nodes on the simulated adversarial network. One op:
+///  `flow <seed> <drop pm> <dup pm> <delay pm> <max delay ms> <messages>`
+/// Node 1 opens an unsecured exchange to node 0 and sends `<messages>` reliable messages one after the
+/// other (payload byte = message number); node 0's application accepts the exchange, logs what it
+/// receives and acknowledges. Result: `base=<ms> res=<per message ok|ErrCode|hang> app=<received numbers in order>
+/// wire=<t>:<from>:<verdict>:<ctr>:<flags>:<ack|->:<number|->,...`
+fn run_sys(out: &mut Out, ops: &[String]) {
+    use crate::simnet::{addr_of, now_ms, run_sim, RandomPolicy, SimEnd, SimNet, Verdict};
+    use embassy_futures::select::{select, select3, Either3};
+    use rs_matter::crypto::test_only_crypto;
+    use rs_matter::dm::devices::test::{TEST_DEV_ATT, TEST_DEV_COMM, TEST_DEV_DET};
+    use rs_matter::error::Error;
+    use rs_matter::sc::{OpCode, PROTO_ID_SECURE_CHANNEL};
+    use rs_matter::transport::exchange::{Exchange, MessageMeta};
+    use rs_matter::transport::network::NoNetwork;
+    use rs_matter::Matter;
+    use std::cell::RefCell;
+
+    for op in ops {
+        let w: Vec<u64> = op.split_whitespace().skip(1).filter_map(|t| t.parse().ok()).collect();
+        if !op.starts_with("flow") || w.len() < 6 {
+            out.op(op, "bad");
+            continue;
+        }
+        embassy_time::MockDriver::get().reset();
+        let net = SimNet::new(2, Box::new(RandomPolicy { rng: Rng::new(w[0]), drop_pm: w[1].min(1000), dup_pm: w[2].min(1000), delay_pm: w[3].min(1000), max_delay_ms: w[4].min(3000) }));
+        let device = Box::new(Matter::new(&TEST_DEV_DET, TEST_DEV_COMM, &TEST_DEV_ATT, 0));
+        let controller = Box::new(Matter::new(&TEST_DEV_DET, TEST_DEV_COMM, &TEST_DEV_ATT, 0));
+        let crypto = test_only_crypto();
+        let ds = net.socket(0);
+        let cs = net.socket(1);
+        let n_msgs = w[5].clamp(1, 6) as u8;
+        let results: RefCell<Vec<String>> = RefCell::new(Vec::new());
+        let app: RefCell<Vec<u8>> = RefCell::new(Vec::new());
+        let sender = async {
+            let mut ex = Exchange::initiate_plaintext(&controller, &crypto, addr_of(0)).await?;
+            for i in 0..n_msgs {
+                let r = ex
+                    .send_with(|_, wb| {
+                        wb.append(&[i, 0xaa, 0xbb, 0xcc])?;
+                        Ok(Some(MessageMeta::new(PROTO_ID_SECURE_CHANNEL, OpCode::PBKDFParamRequest as u8, true)))
+                    })
+                    .await;
+                match r {
+                    Ok(()) => results.borrow_mut().push("ok".into()),
+                    Err(e) => {
+                        results.borrow_mut().push(format!("{:?}", e.code()));
+                        break;
+                    }
+                }
+            }
+            Ok::<(), Error>(())
+        };
+        let receiver = async {
+            loop {
+                let mut ex = Exchange::accept(&device).await?;
+                loop {
+                    let id = match ex.recv().await {
+                        Ok(rx) => rx.payload().first().copied().unwrap_or(0xff),
+                        Err(_) => break,
+                    };
+                    app.borrow_mut().push(id);
+                    if ex.acknowledge().await.is_err() {
+                        break;
+                    }
+                }
+            }
+            #[allow(unreachable_code)]
+            Ok::<(), Error>(())
+        };
+        let dev_run = device.run(&crypto, &ds, &ds, NoNetwork);
+        let ctl_run = controller.run(&crypto, &cs, &cs, NoNetwork);
+        let mut nodes = core::pin::pin!(select3(dev_run, ctl_run, receiver));
+        let mut sender = core::pin::pin!(sender);
+        let finished = {
+            let both = select(nodes.as_mut(), sender.as_mut());
+            matches!(run_sim(&net, both, 120_000), SimEnd::Done(embassy_futures::select::Either::Second(_)))
+        };
+        if !finished {
+            results.borrow_mut().push("hang".into());
+        }
+        // let delayed copies arrive and be acknowledged
+        let _ = run_sim(&net, nodes.as_mut(), 4_000);
+        let _ = now_ms();
+        let _: Option<Either3<(), (), ()>> = None;
+        let mut wire = Vec::new();
+        for l in net.log() {
+            let v = match l.verdict {
+                Verdict::Deliver => "d".to_string(),
+                Verdict::Drop => "x".to_string(),
+                Verdict::Dup => "2".to_string(),
+                Verdict::Delay(ms) => format!("l{}", ms),
+            };
+            match parse_wire(&l.bytes) {
+                Some((ctr, xf, _opc, ack, id)) => wire.push(format!(
+                    "{}:{}:{}:{}:{}:{}:{}",
+                    l.t_ms,
+                    l.from,
+                    v,
+                    ctr,
+                    xf,
+                    ack.map(|a| a.to_string()).unwrap_or("-".into()),
+                    if xf & 0x04 != 0 { id.map(|i| i.to_string()).unwrap_or("-".into()) } else { "-".into() }
+                )),
+                None => wire.push(format!("{}:{}:{}:?:0:-:-", l.t_ms, l.from, v)),
+            }
+        }
+        let res = format!(
+            "base={} res={} app={} wire={}",
+            TEST_DEV_DET.sai.unwrap_or(300),
+            results.borrow().join(","),
+            app.borrow().iter().map(|i| i.to_string()).collect::<Vec<_>>().join(","),
+            wire.join(",")
+        );
+        for r in results.borrow().iter() {
+            out.stat(&format!("sys_res_{}", r), 1);
+        }
+        out.stat("sys_datagrams", net.log_len() as u64);
+        out.op(op, &res);
+    }
+}
+
 pub fn gen(a: &Args) -> String {
     let mut r = Rng::new(a.seed);
     let mut out = Out::default();
@@ -191,6 +348,21 @@ pub fn gen(a: &Args) -> String {
             gen_tab(&mut cr, &mut out, len);
         }
     }
+    // system level: two real nodes, adversarial network, virtual time
+    let n_sys = if a.thorough { 6000 } else { 600 };
+    for id in 0..n_sys {
+        let mut cr = r.fork();
+        let (drop, dup, delay) = match cr.below(6) {
+            0 => (0, 0, 0),
+            1 => (1000, 0, 0), // nothing gets through: the give-up
+            2 => (cr.range(100, 600), 0, 0),
+            3 => (0, cr.range(100, 500), cr.range(0, 300)),
+            _ => (cr.range(0, 500), cr.range(0, 300), cr.range(0, 300)),
+        };
+        let ops = vec![format!("flow {} {} {} {} {} {}", cr.below(1 << 32), drop, dup, delay, *cr.pick(&[50u64, 400, 800, 2500]), cr.range(1, 4))];
+        out.case(n_cases + id, "sys");
+        run_sys(&mut out, &ops);
+    }
     out.finish()
 }
 
@@ -198,7 +370,12 @@ pub fn replay(a: &Args) -> String {
     let text = std::fs::read_to_string(a.input.as_ref().expect("--in")).expect("read input");
     let mut out = Out::default();
     for c in parse_cases(&text) {
-        tc::run_case(&mut out, &c);
+        if c.kind.starts_with("sys") {
+            out.case(c.id, &c.kind);
+            run_sys(&mut out, &c.ops);
+        } else {
+            tc::run_case(&mut out, &c);
+        }
     }
     out.finish()
 }
